@@ -156,6 +156,36 @@ Definition corr_categorical (x : list (list float)) (y : list Z) (alpha : float)
   | _, _ => false
   end.
 
+(* ---------- parameters assembled through the builder methods ----------
+   `steps`: the calls made on `Default::default()`, in call order; `fields`: the public fields of the
+   struct the implementation's builder returned (compared bit for bit with the model's); the fitted
+   model and the predictions are those of the implementation configured with that struct. *)
+(* the call constructors, under names visible to the generated correspondence files (which import only this file) *)
+Definition WithAlpha (a : float) : @bstep float := Model.WithAlpha a.
+Definition WithPriors (p : list float) : @bstep float := Model.WithPriors p.
+Definition WithBinarize (t : float) : @bstep float := Model.WithBinarize t.
+Definition fopt_eq := option_eqb feq.
+Definition params_eq (p : @nbparams float) (fields : float * option (list float) * option float) : bool :=
+  let '(a, pr, b) := fields in
+  feq p.(np_alpha) a && option_eqb flist_eq p.(np_priors) pr && fopt_eq p.(np_binarize) b.
+
+Definition corr_gaussian_built (steps : list (@bstep float)) (fields : float * option (list float) * option float)
+           x y q strict exp_fit exp_pred : bool :=
+  let p := build_params (plain_default FOps) steps in
+  params_eq p fields && corr_gaussian x y p.(np_priors) q strict exp_fit exp_pred.
+Definition corr_multinomial_built (steps : list (@bstep float)) (fields : float * option (list float) * option float)
+           x y q strict exp_fit exp_pred : bool :=
+  let p := build_params (plain_default FOps) steps in
+  params_eq p fields && corr_multinomial x y p.(np_alpha) p.(np_priors) q strict exp_fit exp_pred.
+Definition corr_bernoulli_built (steps : list (@bstep float)) (fields : float * option (list float) * option float)
+           x y q strict exp_fit exp_pred : bool :=
+  let p := build_params (bernoulli_default FOps) steps in
+  params_eq p fields && corr_bernoulli x y p.(np_alpha) p.(np_priors) p.(np_binarize) q strict exp_fit exp_pred.
+Definition corr_categorical_built (steps : list (@bstep float)) (fields : float * option (list float) * option float)
+           x y q strict exp_fit exp_pred : bool :=
+  let p := build_params (plain_default FOps) steps in
+  params_eq p fields && corr_categorical x y p.(np_alpha) q strict exp_fit exp_pred.
+
 (* ---------- unique_with_indices through the public API is only visible as `classes`;
    the index vector is checked directly on the model's definition ---------- *)
 Definition corr_unique (y : list Z) (classes : list Z) (indices : list N) : bool :=
